@@ -226,6 +226,22 @@ func (s *vStats) dump() {
 	_ = os.WriteFile(filepath.Join(vOutDir, "stats.json"), b, 0o644)
 }
 
+// vAPIGuard: true when the function-level entry points are compiled in; otherwise the kind is recorded as not run.
+func vAPIGuard(t *testing.T, kind string) bool {
+	if vAPIAvailable {
+		return true
+	}
+	ts := vAll.test(kind)
+	vAll.mu.Lock()
+	ts.Rule = "NOT RUN: the internal configuration structs of the tree under test differ from the ones verif_api_test.go was written for; the function-level entry points were left out of this build"
+	ts.Labels["api-layer-unavailable"]++
+	ts.Completed = true
+	vAll.mu.Unlock()
+	vAll.dump()
+	t.Skip("api layer unavailable")
+	return false
+}
+
 // vCtx is handed to every check function: it records what the case exercised.
 type vCtx struct {
 	ts     *vTestStats
@@ -609,6 +625,14 @@ func vRunAppTo(inv vInvocation, stdoutOverride *os.File) (res vRun) {
 		os.Unsetenv(k)
 	}
 	for k, v := range inv.Env {
+		if _, known := oldEnv[k]; !known { // a variable outside the fixed list (discovered from the flag definitions)
+			if ov, ok := os.LookupEnv(k); ok {
+				vv := ov
+				oldEnv[k] = &vv
+			} else {
+				oldEnv[k] = nil
+			}
+		}
 		os.Setenv(k, v)
 	}
 	var oldCwd string
@@ -679,6 +703,107 @@ func vResetKnownHelp() {
 		c.Subcommands = nil
 		c.Flags = nil
 	}
+}
+
+// vAPICmd: an exported command function of an internal package behind one signature (see verif_api_test.go).
+type vAPICmd struct {
+	Name    string
+	UsesLog bool
+	UsesDB  bool
+	Run     func(logR, dbR io.Reader, out io.Writer, x string) error
+}
+
+// vFlagInfo describes one option of the program as its own flag definitions declare it: the surface is read from
+// the running program (GetApp()), so options added later are exercised without the harness naming them.
+type vFlagInfo struct {
+	Cmd  []string // command path ("" path = global option)
+	Name string   // long name
+	Bool bool
+	Env  []string
+}
+
+var vSurfaceCache []vFlagInfo
+
+func vSurface() []vFlagInfo {
+	if vSurfaceCache != nil {
+		return vSurfaceCache
+	}
+	app := GetApp()
+	defer vResetCLIGlobals(app)
+	var out []vFlagInfo
+	add := func(path []string, fs []cli.Flag) {
+		for _, f := range fs {
+			names := f.Names()
+			if len(names) == 0 {
+				continue
+			}
+			name := names[0]
+			for _, n := range names {
+				if len(n) > len(name) {
+					name = n
+				}
+			}
+			fi := vFlagInfo{Cmd: append([]string{}, path...), Name: name}
+			switch ff := f.(type) {
+			case *cli.BoolFlag:
+				fi.Bool = true
+				fi.Env = ff.EnvVars
+			case *cli.StringFlag:
+				fi.Env = ff.EnvVars
+			case *cli.IntFlag:
+				fi.Env = ff.EnvVars
+			}
+			out = append(out, fi)
+		}
+	}
+	add(nil, app.Flags)
+	var walk func(path []string, cs []*cli.Command)
+	walk = func(path []string, cs []*cli.Command) {
+		for _, c := range cs {
+			if c == nil || c.Name == "help" {
+				continue
+			}
+			p := append(append([]string{}, path...), c.Name)
+			add(p, c.Flags)
+			walk(p, c.Subcommands)
+		}
+	}
+	walk(nil, app.Commands)
+	sort.SliceStable(out, func(i, j int) bool {
+		a, b := strings.Join(out[i].Cmd, " ")+" --"+out[i].Name, strings.Join(out[j].Cmd, " ")+" --"+out[j].Name
+		return a < b
+	})
+	vSurfaceCache = out
+	return out
+}
+
+// vSurfaceBools: the boolean options that apply to an invocation of the command path (global ones and the command's own),
+// as (where, spelling) pairs: where = "global" | "command" | "env".
+type vBoolOpt struct {
+	Where string
+	Name  string // "--flag" or "ENV_NAME"
+}
+
+func vSurfaceBools(path []string) []vBoolOpt {
+	var out []vBoolOpt
+	for _, f := range vSurface() {
+		if !f.Bool || f.Name == "help" || f.Name == "version" {
+			continue
+		}
+		global := len(f.Cmd) == 0
+		if !global && strings.Join(f.Cmd, " ") != strings.Join(path, " ") {
+			continue
+		}
+		w := "command"
+		if global {
+			w = "global"
+		}
+		out = append(out, vBoolOpt{w, "--" + f.Name})
+		for _, e := range f.Env {
+			out = append(out, vBoolOpt{"env", e})
+		}
+	}
+	return out
 }
 
 func vResetCLIGlobals(app *cli.App) {
